@@ -60,31 +60,13 @@ func Run(prop, tier string) int {
 	if _, err := os.Stat(convBin); err != nil {
 		mc.Fatal("converter binary %s missing (build.sh builds it): %v", convBin, err)
 	}
-	scs := scenarios(tier)
-	per := budget / time.Duration(len(scs))
-	type row struct {
-		name string
-		st   svc.ExploreStats
-	}
-	var rows []row
-	for i := range scs {
-		sc := &scs[i]
-		deadline := time.Now().Add(per)
-		st := svc.Explore(sc, convBin, cap, deadline, func(path []string, v svc.V) {
-			r := reps[v.Prop]
-			if r == nil {
-				return
-			}
-			msg := v.Msg
-			if len(msg) > 160 {
-				msg = msg[:160]
-			}
-			r.Report(mc.Violation{Symptom: v.Symptom, Key: sc.Name + " | " + firstLine(msg),
-				Msg:    fmt.Sprintf("scenario %s, after [%s]: %s", sc.Name, strings.Join(path, " ; "), v.Msg),
-				Replay: map[string]any{"scenario": sc.Name, "program": sc.Program, "path": path}})
-		})
-		rows = append(rows, row{sc.Name, st})
-	}
+	rows := exploreAll(tier, budget, cap, convBin, func(sc *svc.Scenario, path []string, v svc.V) {
+		r := reps[v.Prop]
+		if r == nil {
+			return
+		}
+		r.Report(violationOf(sc, path, v))
+	})
 	var states, trans, drains int64
 	outcomes := 0
 	complete := true
@@ -139,6 +121,60 @@ func Run(prop, tier string) int {
 		}
 	}
 	return code
+}
+
+type row struct {
+	name string
+	st   svc.ExploreStats
+}
+
+func violationOf(sc *svc.Scenario, path []string, v svc.V) mc.Violation {
+	msg := v.Msg
+	if len(msg) > 160 {
+		msg = msg[:160]
+	}
+	return mc.Violation{Symptom: v.Symptom, Key: sc.Name + " | " + firstLine(msg),
+		Msg:    fmt.Sprintf("scenario %s, after [%s]: %s", sc.Name, strings.Join(path, " ; "), v.Msg),
+		Replay: map[string]any{"scenario": sc.Name, "program": sc.Program, "path": path}}
+}
+
+func exploreAll(tier string, budget time.Duration, cap int64, convBin string, onV func(sc *svc.Scenario, path []string, v svc.V)) []row {
+	scs := scenarios(tier)
+	end := time.Now().Add(budget)
+	var rows []row
+	for i := range scs {
+		sc := &scs[i]
+		// what earlier scenarios did not use is available to the later ones
+		deadline := time.Now().Add(time.Until(end) / time.Duration(len(scs)-i))
+		st := svc.Explore(sc, convBin, cap, deadline, func(path []string, v svc.V) { onV(sc, path, v) })
+		rows = append(rows, row{sc.Name, st})
+	}
+	return rows
+}
+
+// ExploreFor runs the same exploration for a property judged by another driver (C20: what a
+// parked job was handed must not change) and reports that property's violations to rep.
+func ExploreFor(prop, tier string, budget time.Duration, rep *mc.Reporter) (states, transitions int64, complete bool, caps []string) {
+	var cap int64 = 1500
+	if tier == "thorough" {
+		cap = 60000
+	}
+	convBin := filepath.Join(mc.VerifDir, "bin", "vconv")
+	rows := exploreAll(tier, budget, cap, convBin, func(sc *svc.Scenario, path []string, v svc.V) {
+		if v.Prop == prop {
+			rep.Report(violationOf(sc, path, v))
+		}
+	})
+	complete = true
+	for _, r := range rows {
+		states += r.st.States
+		transitions += r.st.Transitions
+		if !r.st.Complete {
+			complete = false
+			caps = append(caps, r.name+": "+r.st.CapHit)
+		}
+	}
+	return
 }
 
 func firstLine(s string) string {
